@@ -285,6 +285,7 @@ class ProgramSet(NamedItem):
             for pop in self.pops:
                 if (par, pop) in self.covouts and code_name in self.covouts[(par, pop)].progs:
                     del self.covouts[(par, pop)].progs[code_name]
+                    self.covouts[(par, pop)].update_outcomes()  # Refresh the cached outcomes now that the program has been removed
 
     def add_pop(self, code_name: str, full_name: str, pop_type: str = None) -> None:
         """
